@@ -1071,4 +1071,9 @@ class YAMLPath:
         if pathsep is not PathSeparators.FSLASH and escaped.startswith("/"):
             escaped = "\\" + escaped
 
+        # A leading & would otherwise turn this section into an Anchor
+        # reference.
+        if escaped.startswith("&"):
+            escaped = "\\" + escaped
+
         return escaped
